@@ -485,18 +485,26 @@ def sdss_specobjid(plate, fiber, mjd, run2d, line=None, index=None):
         mjd = np.array([mjd]) - 50000
     else:
         mjd = mjd - 50000
-    if isinstance(run2d, str):
+    def run2d_value(r):
         try:
-            run2d = np.array([int(run2d)])
+            return int(r)
         except ValueError:
             # Try a "vN_M_P" string.
-            m = re.match(r'v(\d+)_(\d+)_(\d+)', run2d)
+            m = re.match(r'v(\d+)_(\d+)_(\d+)', r)
             if m is None:
                 raise ValueError("Could not extract integer run2d value!")
             else:
                 N, M, P = m.groups()
-            run2d = np.array([(int(N) - 5)*10000 + int(M) * 100 + int(P)],
-                             dtype=np.int64)
+            return (int(N) - 5)*10000 + int(M) * 100 + int(P)
+
+    if isinstance(run2d, str):
+        run2d = np.array([run2d_value(run2d)], dtype=np.int64)
+    elif isinstance(run2d, np.ndarray) and run2d.dtype.kind in 'US':
+        #
+        # An array of strings, e.g. as returned by unwrap_specobjid().
+        #
+        run2d = np.array([run2d_value(r.decode() if isinstance(r, bytes) else str(r))
+                          for r in run2d], dtype=np.int64)
     elif isinstance(run2d, int):
         run2d = np.array([run2d])
     if line is None:
